@@ -377,7 +377,9 @@ looping through all list types: {ty:?} {base:?}"
                 }
             }
             FieldValue::Enum(_) => {
-                unimplemented!("enum values are not currently supported: {self} {value:?}")
+                // Enum types are not currently supported in schemas,
+                // so no type can have an enum value as a valid value.
+                false
             }
         }
     }
